@@ -12,6 +12,12 @@ evaluates earlier (a sibling to the left) is order-sensitive with respect to the
                 (int vs. float) is resolved through the *reflected* comparison of the right operand, whose call takes the operands in
                 swapped order: `f(5) < ff(6)` calls ff before f.  Region: a comparison with an opaque int-valued call on the left
                 and the opaque float-valued call `ff` on the right.
+  subscript-order   (visible only at the checked-program level, E5) a subscript whose container is not a place (`mk(x)[g(2)]`): the
+                checker names the index first and passes the container expression as an argument of the `__getitem__` call that
+                follows, so the index is evaluated before the container.  Region: a subscript of a non-place expression where both
+                the container and the index make a call (or the index assigns a variable the container reads).
+  nested-subscript-order   (E5 level) `m[i][j]`, read or stored: the outer index j is evaluated before the inner index i.
+                Region: a chain of subscripts in which two indices make a call (or one assigns a variable another reads).
 `tags(src)` returns the set of tags that apply anywhere in the program."""
 from __future__ import annotations
 
@@ -24,8 +30,11 @@ def _hoisted(n) -> bool:
     return isinstance(n, (ast.NamedExpr, ast.IfExp, ast.BoolOp)) or (isinstance(n, ast.Compare) and len(n.comparators) > 1)
 
 
+PURE = {"array", "len"}     # constructors / queries without events: their position among the events is unobservable
+
+
 def _calls(n) -> bool:
-    return any(isinstance(m, ast.Call) for m in ast.walk(n))
+    return any(isinstance(m, ast.Call) and not (isinstance(m.func, ast.Name) and m.func.id in PURE) for m in ast.walk(n))
 
 
 def _reads(n) -> set:
@@ -61,6 +70,12 @@ def _ordered_children(n):
     return None
 
 
+def _is_place(n) -> bool:
+    while isinstance(n, (ast.Attribute, ast.Subscript)):
+        n = n.value
+    return isinstance(n, ast.Name)
+
+
 def _sensitive(earlier, later) -> bool:
     hs = list(_hoisted_parts(later))
     if not hs:
@@ -91,6 +106,19 @@ def tags(src: str) -> set:
                 fb = {m.func.id for m in ast.walk(b) if isinstance(m, ast.Call) and isinstance(m.func, ast.Name)}
                 if fa and "ff" not in fa and "ff" in fb:
                     out.add("reflected-compare")
+        if isinstance(n, ast.Subscript) and isinstance(n.ctx, ast.Load) and not _is_place(n.value):
+            if (_calls(n.value) and _calls(n.slice)) or (_reads(n.value) & _walrus_targets(n.slice)):
+                out.add("subscript-order")
+        if isinstance(n, ast.Subscript):
+            idx, m = [n.slice], n.value
+            while isinstance(m, (ast.Subscript, ast.Attribute)):
+                if isinstance(m, ast.Subscript):
+                    idx.append(m.slice)
+                m = m.value
+            for a in range(len(idx)):
+                for b in range(a + 1, len(idx)):
+                    if (_calls(idx[a]) and _calls(idx[b])) or (_reads(idx[a]) & _walrus_targets(idx[b])) or (_reads(idx[b]) & _walrus_targets(idx[a])):
+                        out.add("nested-subscript-order")
         kids = _ordered_children(n)
         if kids:
             for j in range(1, len(kids)):
